@@ -1,6 +1,6 @@
 (* C15 -- communication parameters resolve to the most specific definition. *)
-From Coq Require Import ZArith List Bool.
-From OV Require Import Base.Bytes Base.Wire Generated Model.Inherit Proofs.InheritProofs Proofs.ComparamProofs.
+From Coq Require Import ZArith List Bool Lia Sorting.Permutation Sorting.Sorted.
+From OV Require Import Base.Bytes Base.Wire Generated Model.Inherit Proofs.InheritProofs Proofs.ComparamProofs Proofs.SortProofs.
 Import ListNotations.
 Open Scope Z_scope.
 
@@ -72,6 +72,53 @@ Theorem C15_ignorant_parent_skipped : forall f H k ps d p,
   kget k (fold_left (inherit_step f H) (ps ++ [p]) d) = kget k (fold_left (inherit_step f H) ps d).
 Proof. exact inherited_skips_ignorant_parent. Qed.
 Print Assumptions C15_ignorant_parent_skipped.
+
+(* the parents are folded in ascending order of the priority of their layer type: the order is a sorted
+   permutation of the PARENT-REFs, whatever their order in the document *)
+Theorem C15_parents_in_priority_order : forall H l,
+  Permutation (sort_asc H l) l /\ StronglySorted (fun a b => prk H a <= prk H b) (sort_asc H l).
+Proof. intros H l. split; [apply sort_asc_perm | apply sort_asc_sorted]. Qed.
+Print Assumptions C15_parents_in_priority_order.
+
+(* hence: a key which the layer does not define itself resolves to the definition of the parent p,
+   provided every other parent which knows the key is of strictly lower priority (or refers to the same
+   layer) -- independent of the order of the PARENT-REFs and of what lower-priority parents define *)
+Theorem C15_highest_priority_parent_wins : forall f H L k p PL c,
+  last_with k (cl_cps L) = None ->
+  In p (cl_parents L) ->
+  find_cl (p_target p) H = Some PL -> last_with k (comparams f H PL) = Some c ->
+  (forall q, In q (cl_parents L) -> knows f H k q ->
+             p_target q = p_target p \/ prk (map as_layer H) q < prk (map as_layer H) p) ->
+  kget k (comparams (S f) H L) = Some c.
+Proof. exact comparams_highest_priority_parent_wins. Qed.
+Print Assumptions C15_highest_priority_parent_wins.
+
+(* a key known neither locally nor to any parent is not available in the layer *)
+Theorem C15_unknown_key : forall f H L k,
+  last_with k (cl_cps L) = None -> (forall q, In q (cl_parents L) -> ~ knows f H k q) ->
+  kget k (comparams (S f) H L) = None.
+Proof. exact comparams_unknown_key. Qed.
+Print Assumptions C15_unknown_key.
+
+(* the premises of C15_highest_priority_parent_wins are met by the hierarchy of the example below: the
+   ECU variant V lists the protocol first and the base variant second; both know the key (1, None) *)
+Example C15_highest_priority_example :
+  let P := mkCL 0 TProtocol [] [mkCp 1 None [10] [] 1; mkCp 1 (Some 7) [11] [] 2] in
+  let B := mkCL 1 TBaseVariant [mkPref 0 []] [mkCp 1 None [20] [] 3] in
+  let V := mkCL 2 TEcuVariant [mkPref 1 []; mkPref 0 []] [mkCp 2 None [30] [] 4] in
+  let H := [P; B; V] in
+  option_map cp_tag (kget (1, None) (comparams 4 H V)) = Some 3.
+Proof.
+  intros P B V H.
+  rewrite (C15_highest_priority_parent_wins 3 H V (1, None) (mkPref 1 []) B (mkCp 1 None [20] [] 3)).
+  - reflexivity.
+  - reflexivity.
+  - left. reflexivity.
+  - reflexivity.
+  - vm_compute. reflexivity.
+  - intros q [E|[E|[]]] _; subst q; [left; reflexivity | right; vm_compute; reflexivity].
+Qed.
+Print Assumptions C15_highest_priority_example.
 
 Theorem C15_override_example :
   let P := mkCL 0 TProtocol [] [mkCp 1 None [10] [] 1; mkCp 1 (Some 7) [11] [] 2] in
